@@ -48,10 +48,11 @@ type scheduler struct {
 	wg         sync.WaitGroup
 	pkgs       map[string]bool
 	wgs        map[*Value]int64
+	conds      map[*Value]int // sync.Cond: number of Broadcast/Signal calls so far
 }
 
 func newScheduler(in *Interp) *scheduler {
-	s := &scheduler{in: in, maxPreempt: 1, pkgs: map[string]bool{}, wgs: map[*Value]int64{}}
+	s := &scheduler{in: in, maxPreempt: 1, pkgs: map[string]bool{}, wgs: map[*Value]int64{}, conds: map[*Value]int{}}
 	if b, ok := in.cfg.Bounds["PREEMPT"]; ok {
 		s.maxPreempt = b
 	}
@@ -372,6 +373,37 @@ func (s *scheduler) intercept(name string, caller *frame, fn *ssa.Function, a []
 		return nil, true
 	case "(*sync.WaitGroup).Go":
 		s.runFree(a[1], nil)
+		return nil, true
+	case "(*sync.Cond).Wait":
+		// struct Cond { noCopy; L Locker; notify; checker }: L is a *sync.Mutex / *sync.RWMutex
+		c := a[0].(Ptr)
+		if c.cell == nil {
+			in.goPanic("runtime error: invalid memory address or nil pointer dereference")
+		}
+		l, _ := (*c.cell).(Struct)[1].(Iface)
+		lp, ok := l.v.(Ptr)
+		if !ok || lp.cell == nil {
+			in.unsupported("sync.Cond with a Locker that is not a mutex pointer")
+		}
+		if s.countable(caller) {
+			s.point()
+		}
+		if in.mutexes[lp.cell] != -1 {
+			in.goPanic("sync: unlock of unlocked mutex")
+		}
+		in.mutexes[lp.cell] = 0
+		g := s.conds[c.cell]
+		s.block(func() bool { return s.conds[c.cell] != g }, "Cond.Wait")
+		s.block(func() bool { return in.mutexes[lp.cell] == 0 }, "Cond.Wait (relock)")
+		in.mutexes[lp.cell] = -1
+		return nil, true
+	case "(*sync.Cond).Broadcast", "(*sync.Cond).Signal":
+		// Signal is treated like Broadcast (every waiter re-tests its condition; Wait is always used in a loop)
+		c := a[0].(Ptr)
+		s.conds[c.cell]++
+		if s.countable(caller) {
+			s.point()
+		}
 		return nil, true
 	case "runtime.Gosched", "time.Sleep":
 		if s.countable(caller) {
